@@ -72,7 +72,13 @@ class Molecules:
                 rot = Rotation.identity()
         elif not isinstance(rot, Rotation):
             raise TypeError(f"`rot` must be a Rotation object, got {type(rot)}.")
-        elif nmol > 0 and nmol != len(rot):
+        elif rot.single:
+            # NOTE: a single rotation is the placeholder of an empty Molecules.
+            if nmol > 0:
+                raise ValueError(
+                    "`rot` must hold one rotation per molecule, got a single rotation."
+                )
+        elif nmol != len(rot):
             raise ValueError(
                 f"Length mismatch. There are {nmol} molecules but {len(rot)} "
                 "rotation were given."
